@@ -5,16 +5,21 @@ package main
 // decides which sides are feasible and the alternative is queued.
 
 import (
+	"encoding/binary"
 	"fmt"
 	"go/token"
 	"go/types"
 	"runtime/debug"
+	"slices"
 	"sort"
 	"sync"
 	"time"
 
 	"golang.org/x/tools/go/ssa"
 )
+
+var qstat map[string]int
+var qstatMu sync.Mutex
 
 type Config struct {
 	Unwind         int
@@ -100,6 +105,7 @@ type Shared struct {
 	initProblems map[string]string
 	crossSample  []string // standalone scripts of sampled unsat obligations
 	assumeEnds   int
+	qhits        int
 	steps        int64
 }
 
@@ -143,6 +149,8 @@ type Engine struct {
 	activeKnown []string
 	symbolic    bool
 	mergeDepth  int
+	qcache      map[string]qres
+	qhits       int
 	mergeFail   map[*ssa.Function]int
 	hashLogs    map[string]*Term
 	ghost       map[string]value
@@ -165,6 +173,7 @@ func NewEngine(id int, prog *ssa.Program, cfg *Config, shared *Shared) (*Engine,
 		nextAddr:  0x10000,
 		seenFn:    map[*ssa.Function]bool{},
 		seenIntr:  map[*ssa.Function]bool{},
+		qcache:    map[string]qres{},
 	}
 	e.rtErrType = types.Universe.Lookup("error").Type() // placeholder dynamic type for run-time errors
 	if rp := prog.ImportedPackage("runtime"); rp != nil {
@@ -212,6 +221,11 @@ func (e *Engine) freshVar(tag string, w uint8) *Term {
 
 // pathCtx is the exploration context of the current (sub-)path: the top-level
 // path of a harness run, or one local path inside a merged region.
+type qres struct {
+	res   SatResult
+	model Model
+}
+
 type pathCtx struct {
 	parent    *pathCtx // enclosing context (merged regions)
 	pc        []*Term
@@ -241,7 +255,32 @@ func (e *Engine) check(extra *Term, wantModel bool) (SatResult, Model) {
 	if extra != nil {
 		lits = append(lits, extra)
 	}
-	return e.solver.Check(lits, wantModel)
+	// query cache: re-executed prefixes (merged regions in particular) ask
+	// the same questions again; terms are hash-consed so ids identify them.
+	ids := make([]int32, 0, len(lits))
+	for _, l := range lits {
+		if l.IsTrue() {
+			continue
+		}
+		ids = append(ids, l.id)
+	}
+	slices.Sort(ids)
+	ids = slices.Compact(ids)
+	kb := make([]byte, 4*len(ids))
+	for i, id := range ids {
+		binary.LittleEndian.PutUint32(kb[4*i:], uint32(id))
+	}
+	key := string(kb)
+	if r, ok := e.qcache[key]; ok {
+		e.qhits++
+		return r.res, r.model
+	}
+	res, m := e.solver.Check(lits, true)
+	if len(e.qcache) > 2_000_000 {
+		e.qcache = map[string]qres{}
+	}
+	e.qcache[key] = qres{res, m}
+	return res, m
 }
 
 func (e *Engine) addPC(c *Term) {
@@ -296,6 +335,20 @@ func (e *Engine) branch(cond *Term, fr *frame, instr ssa.Instruction) bool {
 	other := cond
 	if mv {
 		other = e.ctx.Not(cond)
+	}
+	if qstat != nil {
+		k := "?"
+		if fr != nil && instr != nil {
+			k = fr.posOf(instr)
+		} else if fr != nil {
+			k = fr.fn.String()
+		}
+		if e.mergeDepth > 0 {
+			k += " [merged]"
+		}
+		qstatMu.Lock()
+		qstat[k]++
+		qstatMu.Unlock()
 	}
 	res, m := e.check(other, true)
 	switch res {
@@ -681,6 +734,7 @@ func (e *Engine) flushStats() {
 		s.intrinsics[fn.String()] = true
 	}
 	s.solver.Queries += e.solver.Queries
+	s.qhits += e.qhits
 	s.solver.Sat += e.solver.SatN
 	s.solver.Unsat += e.solver.UnsatN
 	s.solver.Unknown += e.solver.UnknownN
